@@ -466,6 +466,21 @@ func ruleQueryPaths(r *Report) {
 		}
 	}
 	h.Check(p3 && p4, "release", r.P.InstrPos(cb), "transaction released on both edges", "the transaction is not released to the pool on every path")
+	// … and exactly once: a transaction put into the pool twice is handed to two callers
+	once, why := evalPaths(q, func(ssa.Value) (string, bool) { return "", false }, nil, func(_ map[string]bool, path []*ssa.BasicBlock) bool {
+		n := 0
+		for _, b := range path {
+			for _, ins := range b.Instrs {
+				cc, _, isGo := callCommon(ins)
+				if cc != nil && !isGo && calleeIs(cc, "(*column.txnPool).release") {
+					n++ // a Defer on the path runs once at the exit, a Call runs where it stands
+				}
+			}
+		}
+		return n == 1
+	})
+	_ = why
+	h.Check(once, "release-once", r.P.InstrPos(cb), "exactly one release on every path", "on some path the transaction is released to the pool more than once (or not at all): the pool then hands the same Txn to two concurrent callers")
 	// the error edge returns the callback's error
 	retOK := true
 	for _, ret := range returnsOf(q) {
